@@ -462,3 +462,9 @@ def CharPhase(a, k):
 def Drop2(x):
     # x[2:]: a Pauli string without its first qubit
     return [x[c + 2] for c in range(len(x) - 2)]
+
+
+@spec('int1', 'int', 'int', ret='int1')
+def Slice1(a, lo, hi):
+    # a[lo:hi]
+    return [a[k + lo] for k in range(hi - lo)]
